@@ -62,14 +62,10 @@ impl MatcherBuilder {
         &'builder self,
         text: &'input str,
     ) -> Matcher<'input, 'builder, E> {
-        let input = Input::new(text).anchored(Anchored::Yes);
-        let mut cache = self.dfa.create_cache();
-        let start = self.dfa.start_state_forward(&mut cache, &input).unwrap();
         Matcher {
             text,
             consumed: 0,
-            cache,
-            start,
+            cache: self.dfa.create_cache(),
             dfa: &self.dfa,
             skip_vec: &self.skip_vec,
             _marker: PhantomData,
@@ -81,10 +77,20 @@ pub struct Matcher<'input, 'builder, E> {
     text: &'input str,
     consumed: usize,
     cache: Cache,
-    start: LazyStateID,
     dfa: &'builder DFA,
     skip_vec: &'builder [bool],
     _marker: PhantomData<fn() -> E>,
+}
+
+impl<E> Matcher<'_, '_, E> {
+    /// The highest index among the patterns matching in `state`, which must be a match state
+    /// returned by the most recent call on `self.cache`.
+    fn max_pattern(&self, state: LazyStateID) -> usize {
+        (0..self.dfa.match_len(&self.cache, state))
+            .map(|n| self.dfa.match_pattern(&self.cache, state, n).as_usize())
+            .max()
+            .unwrap()
+    }
 }
 
 impl<'input, E> Iterator for Matcher<'input, '_, E> {
@@ -101,22 +107,29 @@ impl<'input, E> Iterator for Matcher<'input, '_, E> {
 
             let mut match_ = None;
             'search: {
-                let mut state = self.start;
+                // A `LazyStateID` is only valid until the cache is next cleared, which any
+                // `next_state` call may do: ask for the start state again for every token and
+                // read the pattern index of a match state before stepping further.
+                let input = Input::new(text).anchored(Anchored::Yes);
+                let mut state = self
+                    .dfa
+                    .start_state_forward(&mut self.cache, &input)
+                    .unwrap();
                 for (i, byte) in text.bytes().enumerate() {
                     state = self.dfa.next_state(&mut self.cache, state, byte).unwrap();
                     if state.is_match() {
-                        match_ = Some((state, i));
+                        match_ = Some((self.max_pattern(state), i));
                     } else if state.is_dead() {
                         break 'search;
                     }
                 }
                 state = self.dfa.next_eoi_state(&mut self.cache, state).unwrap();
                 if state.is_match() {
-                    match_ = Some((state, text.len()));
+                    match_ = Some((self.max_pattern(state), text.len()));
                 }
             }
 
-            let (match_state, longest_match) = match match_ {
+            let (index, longest_match) = match match_ {
                 Some(match_) => match_,
                 None => {
                     return Some(Err(ParseError::InvalidToken {
@@ -124,14 +137,6 @@ impl<'input, E> Iterator for Matcher<'input, '_, E> {
                     }));
                 }
             };
-            let index = (0..self.dfa.match_len(&self.cache, match_state))
-                .map(|n| {
-                    self.dfa
-                        .match_pattern(&self.cache, match_state, n)
-                        .as_usize()
-                })
-                .max()
-                .unwrap();
 
             if longest_match == 0 {
                 // A zero-length match consumes no input, so it would be found again on every
